@@ -33,6 +33,7 @@ type c27stall struct {
 
 type c27case struct {
 	Stalls []c27stall `json:"stalls,omitempty"`
+	Crowd  bool       `json:"crowd,omitempty"`
 	Initial    string     `json:"initial"` // absent | stale | live | outdated
 	Holders    int        `json:"initial_clients,omitempty"`
 	HolderUS   int64      `json:"initial_clients_leave_after_us,omitempty"`
@@ -97,6 +98,28 @@ func runC27(c *Ctx) {
 		cs.Stalls = append(cs.Stalls, c27stall{
 			Site: stallSites[f.Draw(len(stallSites))], Nth: f.Draw(4),
 			US: []int64{201, 5001, 50001, 300001, 1200001}[f.Draw(5)]})
+	}
+
+	// Crowd mode (one run in twelve): a dozen shells start at the moment the
+	// last client of a live daemon leaves, and the exiting daemon is slow at
+	// removing its socket: connections keep arriving at a daemon that has
+	// decided to exit.
+	if w.Chance(1, 12) {
+		cs.Crowd = true
+		cs.Initial, cs.Holders = "live", 1
+		cs.HolderUS = int64(20001 + 2*w.Draw(100000))
+		n := w.Range(9, 14)
+		cs.Shells = cs.Shells[:1]
+		for i := 0; i < n; i++ {
+			start := cs.HolderUS - 3000 - 500 + int64(w.Draw(4000))
+			if start < 0 {
+				start = 0
+			}
+			cs.Shells = append(cs.Shells, c27shell{StartUS: start, HoldUS: us(100000)})
+		}
+		if f.Chance(3, 4) {
+			cs.Stalls = append(cs.Stalls, c27stall{Site: "fs.Remove", Nth: 0, US: []int64{5001, 100001, 300001}[f.Draw(3)]})
+		}
 	}
 
 	dir := storeTempDir()
